@@ -44,20 +44,66 @@ theorem careSplit_line5 : CareSplit [47, 47, 99, 10] := by
   rw [ws_open_line, ws_line_step _ _ _ (by decide)]
   simp [wsGo, bump]
 
+theorem line_stop (T x : Bytes) (h : Spec.lineTextOk T = true) :
+    wsGo true .line (T ++ 10 :: x) = (10, T.length + 1) := by
+  induction T with
+  | nil => simp [wsGo]
+  | cons c T' ih =>
+    simp only [Spec.lineTextOk, List.all_cons, Bool.and_eq_true, bne_iff_ne, ne_eq] at h
+    have h' : Spec.lineTextOk T' = true := by simpa [Spec.lineTextOk] using h.2
+    simp only [List.cons_append]
+    rw [ws_line_step _ _ _ h.1.2, ih h']
+    simp [bump]
+
+theorem careSplit_line (T x : Bytes) (h : Spec.lineTextOk T = true) (hx : GapOK false x) :
+    CareSplit ([47, 47] ++ T ++ [10] ++ x) := by
+  have e : [47, 47] ++ T ++ [10] ++ x = (47 :: 47 :: T) ++ 10 :: x := by simp
+  have hl : (47 :: 47 :: T).length = T.length + 2 := by simp
+  refine .inr ⟨T.length + 3, by omega, by simp, ?_, ?_, ?_⟩
+  · intro tail
+    have : [47, 47] ++ T ++ [10] ++ x ++ tail = 47 :: 47 :: (T ++ 10 :: (x ++ tail)) := by simp
+    rw [this, ws_open_line, line_stop T _ h]
+    simp [bump]
+  · rw [e]
+    have h1 : T.length + 3 - 1 = (47 :: 47 :: T).length := by simp
+    have h2 : T.length + 3 = (47 :: 47 :: T).length + 1 := by simp
+    rw [h1, List.drop_left, h2, ← List.drop_drop, List.drop_left]
+    simp
+  · rw [e]
+    have h2 : T.length + 3 = (47 :: 47 :: T).length + 1 := by simp
+    rw [h2, ← List.drop_drop, List.drop_left]
+    simpa using hx
+
+theorem renderPieces_care (ps : List Spec.GapPiece) : CareSplit (Spec.renderPieces false ps) := by
+  induction ps with
+  | nil => exact .inl (gapOK_nil true)
+  | cons p ps ih =>
+    cases p with
+    | ws c => exact careSplit_prefix (gapOK_wsByte true c) ih
+    | nl => simpa [Spec.renderPieces, Spec.renderPiece] using careSplit_nl _ (renderPieces_any_ok ps)
+    | block B => exact careSplit_prefix (gapOK_blockOpt true B) ih
+    | line T =>
+      simp only [Spec.renderPieces, Spec.renderPiece, Bool.false_eq_true, if_false]
+      by_cases h : Spec.lineTextOk T = true
+      · rw [if_pos h]; exact careSplit_line T _ h (renderPieces_any_ok ps)
+      · rw [if_neg h]; simpa using careSplit_line [] _ rfl (renderPieces_any_ok ps)
+
 theorem gapAny_care (g : Nat) : CareSplit (gapAny g) := by
   unfold gapAny
-  rw [gapTable_lit]
-  rcases mod10_cases g with h | h | h | h | h | h | h | h | h | h <;> rw [h] <;> simp only [List.getD_cons_zero, List.getD_cons_succ]
-  · exact .inl (gapOK_nil true)
-  · exact .inl (gapOK_sp true)
-  · exact careSplit_nl [] (gapOK_nil false)
-  · exact .inl (gapOK_tab true)
-  · exact .inl (gapOK_c4 true)
-  · exact careSplit_line5
-  · exact .inl (by simpa using gapOK_append (gapOK_sp true) (gapOK_sp true))
-  · exact .inl (gapOK_c7 true)
-  · exact .inl (by simpa using gapOK_append (gapOK_sp true) (gapOK_append (gapOK_c8core true) (gapOK_sp true)))
-  · exact careSplit_nl _ (by simpa using gapOK_append (gapOK_tab false) (gapOK_append gapOK_line9 (gapOK_sp false)))
+  by_cases hg : g < 36
+  · rw [if_pos hg, gapTable_lit]
+    rcases mod10_cases g with h | h | h | h | h | h | h | h | h | h <;> rw [h] <;> simp only [List.getD_cons_zero, List.getD_cons_succ]
+    · exact .inl (gapOK_nil true)
+    · exact .inl (gapOK_sp true)
+    · exact careSplit_nl [] (gapOK_nil false)
+    · exact .inl (gapOK_tab true)
+    · exact .inl (gapOK_c4 true)
+    · exact careSplit_line5
+    · exact .inl (by simpa using gapOK_append (gapOK_sp true) (gapOK_sp true))
+    · exact .inl (gapOK_c7 true)
+    · exact .inl (by simpa using gapOK_append (gapOK_sp true) (gapOK_append (gapOK_c8core true) (gapOK_sp true)))
+    · exact careSplit_nl _ (by simpa using gapOK_append (gapOK_tab false) (gapOK_append gapOK_line9 (gapOK_sp false)))
+  · rw [if_neg hg]; exact renderPieces_care _
 
 /-- what `conf_parse_whitespace(parse, 1)` does in front of a closing character -/
 theorem wsAt_care (d : Bytes) (pos : Nat) (W : Bytes) (c : UInt8) (t : Bytes) (hW : CareSplit W) (hc : StopCh true c)
